@@ -93,7 +93,11 @@ func AddTimer(d time.Duration, desc string, fire func()) TimerHandle {
 	if len(s.timerLog) < 2000 {
 		s.timerLog = push(s.timerLog, TimerReq{Task: CurrentID(), D: d, Desc: desc, At: s.clock.now})
 	}
-	e := &timerEv{at: s.clock.now + d, seq: s.clock.seq, fire: fire, desc: desc}
+	at := s.clock.now + d
+	if at < s.clock.now {
+		at = 1<<63 - 1 // saturate, as the runtime does: a wait of ~292 years must not wrap into the past
+	}
+	e := &timerEv{at: at, seq: s.clock.seq, fire: fire, desc: desc}
 	heap.Push(&s.clock.q, e)
 	return TimerHandle{e}
 }
